@@ -457,6 +457,20 @@ def check_sign(sk, dg, hf, extra, use_default=False):
     if a != b or a != want:
         return {"first": list(a), "second": list(b), "expected": list(want), "rfc_nonce": k, "candidates_skipped": rg,
                 "hash_in_force": getattr(force, "__name__", str(force)).replace("openssl_", "")}
+    # ... and that signature is the STANDARD one for this nonce, by arithmetic that shares nothing with the library (`want` above
+    # comes from the library's own signing primitive): r = x(kG) mod n, s = k^-1 (e + r d) mod n, e = leftmost bits
+    try:
+        from props import keyslib as KL
+        cf, G = sk.curve.curve, sk.curve.generator
+        R = KL.aff_mul(k, (int(G.x()), int(G.y())), cf.p(), cf.a())
+        e = int.from_bytes(dg, "big") >> max(0, 8 * len(dg) - n.bit_length())
+        r = R[0] % n
+        std = (r, pow(k, -1, n) * (e + r * d) % n)
+    except Exception as ex:  # noqa
+        return {"got": "reference arithmetic failed: " + common.errname(ex)}
+    if std[0] and std[1] and tuple(a) != std:
+        return {"first": list(a), "standard": list(std), "rfc_nonce": k, "candidates_skipped": rg,
+                "why": "not the standard (r, s) of the RFC 6979 nonce (independent arithmetic)"}
     return None
 
 
@@ -509,7 +523,10 @@ def search(ctx):
                            "expected": "standard ECDSA signature at the first RFC 6979 candidate that gives r != 0 and s != 0"})
             if len(ctx.violations) >= 3:
                 return
-    for cv in (rng.sample(list(curves.curves), 3) if ctx.quick else curves.curves):
+    # SECP112r2 is the one named curve with a cofactor (h = 4, n about p / 4): x(kG) lies in [2n, p) for every second nonce, so
+    # "r = x mod n" really is a reduction there (round-8 seed C04-mut57-2 subtracted n once) - always present, eight signatures
+    c112 = [c for c in curves.curves if c.name == "SECP112r2"]
+    for cv in (c112 * 8 + rng.sample(list(curves.curves), 3) if ctx.quick else c112 * 24 + list(curves.curves)):
         sk = SigningKey.from_secret_exponent(rng.randrange(1, cv.order), cv)
         hf = rng.choice([hashlib.sha1, hashlib.sha256, hashlib.sha512])
         dg = hf(b"c04s %d" % rng.getrandbits(32)).digest()
